@@ -1221,6 +1221,25 @@ example :
     resolveAll isFile ["site", "general"] [.name "cryo", .name "x"] = some [("site", "cryo.py"), ("general", "x")] := by
   decide +kernel
 
+/-! ## the driver's instance of the unit oracles satisfies the law the main-unit pass assumes -/
+
+/-- `applyConfigU` runs the main-unit step after the final checks, the constructor before them: for the driver's
+datatypes the outcome of `checkProperties` does not depend on units -/
+theorem checkDT_setMainUnit (mu : String) : ∀ dt : ConfigDT.CDT,
+    ConfigDT.checkDT (ConfigDT.setMainUnit mu dt) = ConfigDT.checkDT dt
+  | .double _ _ _ => by simp [ConfigDT.setMainUnit, ConfigDT.checkDT]
+  | .int _ _ => by simp [ConfigDT.setMainUnit]
+  | .string _ _ _ => by simp [ConfigDT.setMainUnit]
+  | .bool => by simp [ConfigDT.setMainUnit]
+  | .enum _ => by simp [ConfigDT.setMainUnit]
+  | .array lo hi m => by simp [ConfigDT.setMainUnit, ConfigDT.checkDT, checkDT_setMainUnit mu m]
+  | .tuple _ => by simp [ConfigDT.setMainUnit, ConfigDT.checkDT]
+
+/-- the unit an array shows is the unit of its members, a tuple has none: a `$` inside a tuple is invisible to
+`datatype.unit` and is still replaced -/
+example : ConfigDT.unitOf (.tuple [.double none none "$", .double none none "s"]) = "" ∧
+    ConfigDT.unitOf (.array 0 3 (.double none none "K")) = "K" := ⟨rfl, rfl⟩
+
 /-! ## table facts (re-checked against the repository on every run) -/
 
 /-- every settable property of `Parameter` is known to the driver's instance of the oracles -/
